@@ -37,7 +37,7 @@ SCOPE = {'evals': 0, 'bad': []}
 def gates(tier):
     return {'sequence_steps': 60000, 'sequences': 20000, 'raising_steps': 8000, 'steps_using_remembered_expect': 3000,
             'process_state_checks': 1200, 'config_fingerprint_checks': 400, 'scope_taps': 5000,
-            'shared_instance_steps': 1500, 'negpow_steps': 200, 'own_text_checks': 300, 'registered_default_cases': 20, 'debug_log_checks': 5000}
+            'shared_instance_steps': 1500, 'negpow_steps': 200, 'own_text_checks': 300, 'soup_steps': 2500, 'registered_default_cases': 20, 'debug_log_checks': 5000}
 
 
 # ----------------------------------------------------------------------------- specs
@@ -515,11 +515,76 @@ def run_registered_defaults(ctx):
                 ctx.violation('C11:registered_defaults:persist_after_clear', 'default still in force: %r' % (out.brief(),), {'class': cls.__name__})
 
 
+def run_soup(ctx):
+    """
+    Mixed histories without a script: several graders of any kind (the configuration grammar of gen_graders, incl.
+    configurations with several options drawn together), called in random order with right, wrong and hostile
+    inputs.  Every call is compared with the same call on a freshly made twin, and the process-wide settings are
+    compared with their fingerprint at the start every few steps.
+    """
+    from vf import gen_graders as GG
+    rng = ctx.rng
+    F = GG.Factory(rng)
+    for i in range(ctx.n(240, 4000)):
+        made = []
+        for _ in range(rng.randint(3, 6)):
+            case = F.any() if rng.random() < 0.7 else F.random_config()
+            try:
+                made.append((case, case['make'](debug=False)))
+            except Exception:  # noqa  (a refused option combination)
+                continue
+        if len(made) < 2:
+            continue
+        st0 = state.process_state()
+        hist = []
+        for step in range(rng.randint(8, 30)):
+            case, g = rng.choice(made)
+            pool = case['good'] + case['partial'] + case['wrong']
+            inp = rng.choice(pool)
+            if rng.random() < 0.25:
+                junk = rng.choice(GG.GARBAGE)
+                inp = junk if not isinstance(inp, list) else [junk if rng.random() < 0.5 else x for x in inp]
+            inp_ = list(inp) if isinstance(inp, list) else inp
+            expect = 'cat' if case.get('needs_expect') else None
+            ctx.seed_case('soup', i, step)
+            out = lib.call(ctx, g, expect, inp_)
+            try:
+                twin = case['make'](debug=False)
+            except Exception:  # noqa
+                continue
+            ctx.seed_case('soup', i, step)
+            ref = lib.call(ctx, twin, expect, list(inp) if isinstance(inp, list) else inp)
+            ctx.ev()
+            ctx.count('soup_steps')
+            hist.append((case['cls'], repr(inp)[:60]))
+
+            def brief(o):
+                if o.kind != 'ok':
+                    return (o.kind, type(o.exc).__name__ if o.exc is not None else None)
+                r = o.value
+                if 'input_list' in r:
+                    return ('ok', tuple((e['ok'], round(e['grade_decimal'], 9)) for e in r['input_list']))
+                return ('ok', r['ok'], round(r['grade_decimal'], 9))
+            if brief(out) != brief(ref):
+                ctx.violation('C11:soup:used_instance_differs_from_fresh:' + case['cls'],
+                              'step %d: %r on the used grader, %r on a freshly made one' % (step, out.brief(), ref.brief()),
+                              {'grader': case['desc'], 'input': inp, 'history': hist[-8:]})
+                break
+            if step % 5 == 4:
+                d = state.diff_state(st0, state.process_state())
+                ctx.count('process_state_checks')
+                if d:
+                    ctx.violation('C11:process_state:' + d[0], 'after %r: %r changed' % (hist[-5:], d), {'history': hist[-8:]})
+                    break
+        ctx.nontrivial(['soup', i, ctx.shard])
+
+
 def run(ctx):
     install_scope_tap()
     run_sequences(ctx)
     run_configs(ctx)
     run_shared(ctx)
+    run_soup(ctx)
     if ctx.shard % 4 == 0:
         run_registered_defaults(ctx)
     ctx.count('scope_taps', SCOPE['evals'] // 3)
